@@ -328,3 +328,52 @@ def all_ctc_trees(names, ops, depth):
                     if t not in seen:
                         seen.add(t)
                         yield t
+
+
+# ---------------------------------------------------------------------- targeted constraint streams
+def nest_ctcs(ops=LOGICAL, extra_bins=()):
+    """every operator directly inside every operator, on either side (and under NOT), over three names"""
+    A, B, C = T("A"), T("B"), T("C")
+    bins = [o for o in ops if o != "NOT"] + list(extra_bins)
+    for o2 in bins:
+        yield OP("NOT", OP(o2, A, B))
+        for o1 in bins:
+            yield OP(o1, OP(o2, A, B), C)
+            yield OP(o1, A, OP(o2, B, C))
+            yield OP(o1, OP("NOT", A), OP(o2, B, OP("NOT", C)))
+    yield OP("NOT", OP("NOT", A))
+    yield OP("NOT", OP("NOT", OP("NOT", A)))
+    for o1 in bins:
+        yield OP(o1, A, B)
+        yield OP(o1, OP("NOT", A), B)
+        yield OP(o1, A, OP("NOT", B))
+        yield OP(o1, B, A)
+        yield OP(o1, A, A)
+
+
+def free_model(ctcs, names=("A", "B", "C"), root="R"):
+    """a tree that leaves the named features free (optional children of the root)"""
+    base = F(root, [R(0, 1, [F(n)]) for n in names])
+    return dict(root=base, ctcs=[(f"c{i}", c) for i, c in enumerate(ctcs)])
+
+
+def nest_models(ops=LOGICAL, chunk=1):
+    """free models carrying the nest constraints, [chunk] constraints per model"""
+    buf = []
+    for t in nest_ctcs(ops):
+        buf.append(t)
+        if len(buf) == chunk:
+            yield free_model(buf)
+            buf = []
+    if buf:
+        yield free_model(buf)
+
+
+def case_twin_models(ops=("REQUIRES", "EXCLUDES", "IMPLIES", "OR", "AND"), names=("Xa", "xa", "Yb", "yb")):
+    """same-shaped constraints over names differing only in letter case; the same constraint twice;
+    one constraint naming two case twins"""
+    a, a2, b, b2 = names
+    for o in ops:
+        yield free_model([OP(o, T(a), T(b)), OP(o, T(a2), T(b2))], names)
+        yield free_model([OP(o, T(a), T(b)), OP(o, T(a), T(b))], names)
+        yield free_model([OP(o, T(a), T(a2))], names)
